@@ -52,7 +52,11 @@ impl TimerState {
 
     pub(super) fn init(&mut self, cx: &mut Context<'_>) {
         if let TimerState::Active { timer } = self {
-            let _ = timer.as_mut().poll(cx);
+            // the deadline may already have passed (it is computed from a cached clock); an elapsed timer
+            // registers no waker, so ask to be polled again and let the expiry be handled there
+            if timer.as_mut().poll(cx).is_ready() {
+                cx.waker().wake_by_ref();
+            }
         }
     }
 }
